@@ -37,21 +37,31 @@ def check(model, rep):
     rep.rule('R11.1', 'row i = [q_i x n_i ; n_i], q_i = bottom joint i, n_i = unit(top joint i - bottom joint i)')
     from ..engine import tv as _tv
     tp_, bp_, pr_ = ij.params[1], ij.params[2], ij.params[3]
-    ok, why = _tv.fi_matches_spec(model, ij, """
-        def inverseJacobian(self, %s=None, %s=None, %s=True):
-            %s, %s = self._bottomTopCheck(%s, %s)
+    SPEC_IJ = """
+        def inverseJacobian(self, %(tp)s=None, %(bp)s=None, %(pr)s=True):
+            %(bp)s, %(tp)s = self._bottomTopCheck(%(bp)s, %(tp)s)
             saved_bottom = self.getBottomT()
             saved_top = self.getTopT()
-            self.IK(top_plate_pos = %s, bottom_plate_pos = %s, protect = %s)
+            self.IK(%(ik1)s)
             rows = np.zeros((6, 6))
             for i in range(6):
                 n = fmr.Normalize(self._top_joints_space[:, i] - self._bottom_joints_space[:, i])
                 q = self._bottom_joints_space[:, i]
                 rows[i, 0:3] = np.cross(q, n)
                 rows[i, 3:6] = n
-            self.IK(top_plate_pos = saved_top, bottom_plate_pos = saved_bottom, protect = %s)
+            self.IK(%(ik2)s)
             return rows
-        """ % (tp_, bp_, pr_, bp_, tp_, bp_, tp_, tp_, bp_, pr_, pr_), cell_shape=(6, 6))
+        """
+    ok, why = False, ''
+    # the two IK calls may name their arguments or pass them by position (top pose, bottom pose, protect)
+    for ik1, ik2 in (('top_plate_pos = %s, bottom_plate_pos = %s, protect = %s' % (tp_, bp_, pr_), 'top_plate_pos = saved_top, bottom_plate_pos = saved_bottom, protect = %s' % pr_),
+                     ('%s, %s, %s' % (tp_, bp_, pr_), 'saved_top, saved_bottom, %s' % pr_),
+                     ('%s, %s, %s' % (tp_, bp_, pr_), 'top_plate_pos = saved_top, bottom_plate_pos = saved_bottom, protect = %s' % pr_),
+                     ('top_plate_pos = %s, bottom_plate_pos = %s, protect = %s' % (tp_, bp_, pr_), 'saved_top, saved_bottom, %s' % pr_)):
+        ok, w_ = _tv.fi_matches_spec(model, ij, SPEC_IJ % {'tp': tp_, 'bp': bp_, 'pr': pr_, 'ik1': ik1, 'ik2': ik2}, cell_shape=(6, 6))
+        why = why or w_
+        if ok:
+            break
     rep.ob('R11.1', ij, 'row i = [q_i x n_i ; n_i] with q_i = bottom joint i, n_i = unit(top_i - bottom_i), six legs; poses saved, IK(requested) '
            '... rows ... IK(saved)', ok, 'inverseJacobian is not the Plucker-row construction inside the save / evaluate / restore bracket: ' + why)
 
@@ -245,8 +255,16 @@ def check(model, rep):
         k_ = kinds[0]
         seen.add(k_)
         rt = ast.parse(pth.ret_src, mode='eval').body
-        ok = isinstance(rt, ast.Call) and norm_text(rt.func).split('.')[-1] == 'getUnitVec' and len(rt.args) == 3 and not rt.keywords
-        got = tuple(norm_text(a_) for a_ in rt.args) if ok else ()
+        # getUnitVec(first point, second point, distance): arguments by position or by name
+        _guv = model.find_func('basic_robotics.general.faser_general', 'getUnitVec')
+        guv_p = (list(_guv.params) + ['', '', ''])[:3] if _guv is not None else ['', '', 'distance']
+        args5 = list(rt.args[:3]) + [None] * (3 - len(rt.args[:3])) if isinstance(rt, ast.Call) else [None] * 3
+        for kw_ in (rt.keywords if isinstance(rt, ast.Call) else []):
+            if kw_.arg in guv_p:
+                args5[guv_p.index(kw_.arg)] = kw_.value
+        ok = isinstance(rt, ast.Call) and norm_text(rt.func).split('.')[-1] == 'getUnitVec' and all(a_ is not None for a_ in args5) \
+            and len(rt.args) + len(rt.keywords) == 3
+        got = tuple(norm_text(a_) for a_ in args5) if ok else ()
         rep.ob('R11.5', gal, "getActuatorLoc(i, '%s') = getUnitVec(own joint, other joint of leg i, configured offset)" % k_,
                ok and joint_of(got[0], want[k_][0], want[k_][1]) and joint_of(got[1], want[k_][1], want[k_][0]) and got[2] == want[k_][2],
                ("the '%s' location is %s: the centre of gravity is not at the configured distance %s from the %s joint of leg i towards its other joint "
